@@ -436,6 +436,166 @@ func transmitted(srv *ch.Server, tag string) bool {
 	return false
 }
 
+// startStopRace: Start and Stop are called from several goroutines while a
+// publish is unacknowledged (Stop(true) waits for it up to the disconnect
+// timeout). Afterwards the service must be in one consistent state: never more
+// than one connection open at a time, and if it is running, futures survive a
+// reconnect as usual.
+func startStopRace(r *h.Run, idx int) {
+	rng := r.Rand(fmt.Sprintf("c17-race-%d", idx))
+	r.Journal("C17 start/stop race #%d", idx)
+	srv := ch.NewServer()
+	var mu sync.Mutex
+	open, maxOpen := 0, 0
+	withhold := true
+	srv.Prep = func(c *ch.Conn) {
+		mu.Lock()
+		open++
+		if open > maxOpen {
+			maxOpen = open
+		}
+		mu.Unlock()
+		c.CEnd.OnClose = func() { mu.Lock(); open--; mu.Unlock() }
+		c.Peer.AutoReply = ch.Broker(false, func(in packet.Generic, def []packet.Generic) []packet.Generic {
+			if p, ok := in.(*packet.Publish); ok && strings.HasPrefix(p.Message.Topic, "hold/") {
+				mu.Lock()
+				w := withhold
+				mu.Unlock()
+				if w {
+					return nil
+				}
+			}
+			return def
+		})
+	}
+	fail := func(key, msg string) {
+		r.Violation("race/"+key, fmt.Sprintf("start/stop race #%d: %s", idx, msg), map[string]interface{}{"detail": msg, "event_log_tail": srv.Log.Dump(120)})
+	}
+	s := client.NewService(100)
+	s.Session = ch.NewSession(srv.Log)
+	s.MinReconnectDelay, s.MaxReconnectDelay = time.Millisecond, 3*time.Millisecond
+	s.ConnectTimeout, s.ResubscribeTimeout = 40*time.Millisecond, 40*time.Millisecond
+	s.DisconnectTimeout = time.Duration(20+rng.Intn(40)) * time.Millisecond
+	cfg := ch.Config(srv, "c17-race", false)
+	s.Start(cfg)
+	if s.Publish("ok/x", []byte("warm"), 1, false).Wait(bh.Watchdog) != nil {
+		r.Inconclusive("race: warm-up publish")
+		s.Stop(true)
+		return
+	}
+	// an unacknowledged publish keeps Stop(true) waiting
+	s.Publish("hold/x", []byte("held"), 1, false)
+	time.Sleep(2 * time.Millisecond)
+	var wg sync.WaitGroup
+	nops := 2 + rng.Intn(4)
+	ops := make([]int, nops)
+	delays := make([]time.Duration, nops)
+	for i := range ops {
+		ops[i] = rng.Intn(3)
+		delays[i] = time.Duration(rng.Intn(8000)) * time.Microsecond
+	}
+	ops[0] = 0 // always one Stop(true) first
+	delays[0] = 0
+	done := make(chan struct{})
+	for i := range ops {
+		wg.Add(1)
+		go func(i int) {
+			defer wg.Done()
+			time.Sleep(delays[i])
+			switch ops[i] {
+			case 0:
+				s.Stop(true)
+			case 1:
+				s.Start(cfg)
+			default:
+				s.Stop(false)
+			}
+		}(i)
+	}
+	go func() { wg.Wait(); close(done) }()
+	select {
+	case <-done:
+	case <-time.After(15 * time.Second):
+		confirmed, stacks := stuck.Confirm(time.Second, srv.Log.Len, "github.com/256dpi/gomqtt/client.")
+		if confirmed {
+			fail("hang", "concurrent Start/Stop calls did not all return; parked: "+stacks[0])
+		} else {
+			r.Inconclusive("race: Start/Stop slow")
+		}
+		return
+	}
+	mu.Lock()
+	withhold = false
+	mu.Unlock()
+	// bring the service into the running state (Start returns false if it already runs)
+	s.Start(cfg)
+	var f client.GenericFuture
+	for try := 0; try < 100; try++ {
+		f = s.Publish("ok/y", []byte("after"), 1, false)
+		if err := f.Wait(bh.Watchdog); err == nil {
+			break
+		} else if err != future.ErrCanceled {
+			fail("not-running", fmt.Sprintf("after the race the started service does not carry out commands: %v", err))
+			s.Stop(true)
+			return
+		}
+	}
+	// futures survive a reconnect: withhold the acknowledgement, drop, resume
+	mu.Lock()
+	withhold = true
+	mu.Unlock()
+	var hf client.GenericFuture
+	tag := ""
+	for try := 0; try < 50; try++ {
+		tag = fmt.Sprintf("survive-%d", try)
+		hf = s.Publish("hold/y", []byte(tag), 1, false)
+		// wait until it has been handed to a connection
+		ok := false
+		for i := 0; i < 400 && !ok; i++ {
+			for _, e := range srv.Log.Events() {
+				if e.Kind == "srecv" {
+					if p, is := e.Pkt.(*packet.Publish); is && string(p.Message.Payload) == tag {
+						ok = true
+					}
+				}
+			}
+			if !ok {
+				time.Sleep(500 * time.Microsecond)
+			}
+		}
+		if ok {
+			break
+		}
+		if hf.Wait(time.Millisecond) != future.ErrCanceled {
+			break
+		}
+	}
+	mu.Lock()
+	withhold = false
+	mu.Unlock()
+	if cs := srv.Conns(); len(cs) > 0 {
+		cs[len(cs)-1].Peer.Close()
+	}
+	if err := hf.Wait(bh.Watchdog); err != nil && transmitted(srv, tag) {
+		fail("future-does-not-survive-reconnect", fmt.Sprintf("a QoS 1 publish was handed to the connection, the connection dropped, the session was resumed and the broker acknowledged the retransmission, but the future ended with %v", err))
+	}
+	mu.Lock()
+	mo := maxOpen
+	mu.Unlock()
+	if mo > 1 {
+		fail("two-connections", fmt.Sprintf("the service had %d connections open at the same time", mo))
+	}
+	guardDone := make(chan struct{})
+	go func() { s.Stop(true); close(guardDone) }()
+	select {
+	case <-guardDone:
+	case <-time.After(10 * time.Second):
+		fail("hang", "final Stop(true) did not return")
+	}
+	r.Eval()
+	r.NonTrivial(fmt.Sprintf("race:%d:%v", idx, ops))
+}
+
 // stopWhileOffline: commands are issued while the broker is unreachable, then
 // the service is stopped and asked to cancel all pending futures.
 func stopWhileOffline(r *h.Run, idx int, kind string, ncmd int) {
@@ -579,5 +739,8 @@ func TestCheck(t *testing.T) {
 		stopWhileOffline(r, i, []string{"dial-refused", "no-connack"}[i%2], 1+i%9)
 	})
 	r.Count("stop_while_offline_runs", int64(nOff))
+	nRace := r.Pick(120, 2500)
+	h.Parallel(nRace, 16, func(i int) { startStopRace(r, i) })
+	r.Count("start_stop_race_runs", int64(nRace))
 	os.Exit(r.Finish(30))
 }
